@@ -1,1 +1,47 @@
-import GeoModel
+/-
+  C04 — compressed segment indexes are exact accelerators.
+  Property theorems (proved in GeoProofs/Index/*): for EVERY carrier whose `lt` is a strict weak
+  order (nothing assumed about midpoints; for the R-tree additionally that subtraction has an
+  exact sign, which IEEE subtraction has), every number of segments and every query box, the
+  byte-level search of the compressed index is the early-exit fold over a visit list that is a
+  permutation of the brute-force filter: exactly the matching segments, each once, with its own
+  index, no callback after a `false`, and never an out-of-range read (`some`).
+  The series-level corollaries for the concrete `Series` are in GeoProofs/SeriesSearch.lean.
+-/
+import GeoProofs.Index.QBytes
+import GeoProofs.Index.RBytes
+import GeoProofs.Index.RTreeSub
+import GeoProofs.SeriesSearch
+namespace Geo
+
+/-- re-statement (quadtree): see `qtree_search_exact` -/
+theorem C04_quadtree {α : Type} [Carrier α] [LawfulCarrier α] (boxOf : Nat → GBox α) (bounds q : GBox α) (nsegs : Nat)
+    (hn : nsegs < 2^32) (hb : ∀ i, i < nsegs → boxOf i ⊆ bounds)
+    (hsz : (qCompress (qBuild boxOf bounds nsegs) #[2,0,0,0,0]).size < 2^32) :
+    ∃ visit : List Nat, List.Perm visit ((List.range nsegs).filter (fun i => (boxOf i).meets q)) ∧
+      ∀ (σ : Type) (f : σ → Nat → σ × Bool) (s : σ),
+        qSearchBytes boxOf q f (qCompress (qBuild boxOf bounds nsegs) #[2,0,0,0,0]) (qMaxDepth + 2) 5 bounds s
+          = some (foldUntil f s visit) :=
+  qtree_search_exact boxOf bounds q nsegs hn hb hsz
+
+#print axioms C04_quadtree
+#print axioms qtree_search_exact
+#print axioms rtree_search_exact
+#print axioms rtree_search_exact_of_NE
+#print axioms rBuild_items_counterexample
+#print axioms readNum_appendNum
+#print axioms qSearchTree_eq_foldUntil
+#print axioms qVisit_perm_filter
+#print axioms qInsert_inv
+#print axioms qInsert_items
+#print axioms qBuild_spec
+#print axioms rSearchTree_eq_foldUntil
+#print axioms rVisit_eq_filter
+#print axioms splitEntries_perm
+#print axioms rBuild_spec'
+#print axioms series_search_exact_none
+#print axioms series_search_exact_quadtree
+#print axioms series_search_exact_rtree
+#print axioms segBox_inside_rect
+
+end Geo
